@@ -604,3 +604,55 @@ def correspondence_modules(ctx: Ctx):
                                 recon if form == "key" else []),
                    "impl": _module_impl(spec, sspec), "nontrivial": odd,
                    "bucket": f"CropKspace/rank{rank}/{form}/" + ("odd" if odd else "even")}
+
+
+# --------------------------------------------------------------------------------------------------
+# exact correspondence of PadCoilDimensionModule (driver: `padcoil`): every pad_coils (None, 0, smaller, equal, larger,
+# negative), both keys, coil_dim 0 / 1, samples with and without the requested key
+def _padcoil_impl(spec, sspec):
+    from core import ints, tensor_groups
+
+    def run():
+        smp = make_sample(sspec)
+        try:
+            with torch.no_grad():
+                res = build(spec)(smp)
+        except (ValueError, TypeError, IndexError, RuntimeError, AssertionError, KeyError) as e:
+            return "err " + err_name(e)
+        groups = []
+        for k in ("kspace", "masked_kspace"):
+            if k in res:
+                t = res[k]
+                if not isinstance(t, torch.Tensor) or t.dtype != torch.float32:
+                    return f"err DtypeChanged({getattr(t, 'dtype', type(t).__name__)})"
+                groups += list(tensor_groups(t))
+            else:
+                groups += [[-1], [-1]]
+        return "ok " + " | ".join(ints(g) for g in groups)
+    return run
+
+
+def correspondence_padcoil(ctx: Ctx):
+    from core import line, tensor_groups
+
+    rng = ctx.rng
+    for _ in range(ctx.budget(40, 400)):
+        rank = rng.choice([4, 5])
+        present = rng.choice([{"kspace", "masked_kspace"}] * 3 + [{"kspace"}, {"masked_kspace"}])
+        coils = rng.randint(1, 4)
+        sspec = _sample_spec(rng, rank, present, h=rng.randint(1, 3), w=rng.randint(1, 3), slices=rng.randint(1, 3), coils=coils)
+        key = rng.choice(["kspace", "masked_kspace"])
+        cd = rng.choice([0, 0, 0, 1])
+        full = make_sample(dict(sspec, keys=["kspace", "masked_kspace"]))      # placeholders for an absent key (ignored)
+        smp = make_sample(sspec)
+        cur = (smp.get(key) if key in smp else full[key]).shape[cd]
+        n = rng.choice([None, 0, -1, cur, cur + 1, cur + 2, cur + 3, max(cur - 1, 1), rng.randint(1, 6)])
+        spec = {"cls": "PadCoilDimensionModule", "kwargs": {"pad_coils": n, "key": key, "coil_dim": cd}}
+        gk = tensor_groups(smp["kspace"] if "kspace" in smp else full["kspace"])
+        gm = tensor_groups(smp["masked_kspace"] if "masked_kspace" in smp else full["masked_kspace"])
+        num = n or 0
+        kind = ("none" if not n else "missing-key" if key not in smp else "raises" if cur > n else "equal" if cur == n else "pads")
+        yield {"line": line("padcoil", [num, 1 if key == "masked_kspace" else 0, cd, int("kspace" in smp), int("masked_kspace" in smp)],
+                            gk[0], gk[1], gm[0], gm[1]),
+               "impl": _padcoil_impl(spec, sspec), "nontrivial": kind == "pads",
+               "bucket": f"PadCoilDimensionModule/rank{rank}/dim{cd}/{kind}"}
